@@ -191,6 +191,30 @@ check(
     spec="Team",
 )
 
+check(
+    "C04",
+    "TLC model-checks ClientLoop.tla (one client's timed request loop: schedule_for / ScheduleHandle / IterationBased|TimePeriodBased / Unthrottled|UnitAwareScheduler->Deterministic|Poisson / "
+    "AsyncExecutor / execute_single / Sampler, actions in the code's order of clock reads) over every service-time/overhead/outcome/weight sequence for every pacing and unit variant, against "
+    "proc >= svc >= 0, svc = wire span, not-before-schedule, latency = response - scheduled time (throttled) / = service time (unthrottled), one sample per request carrying client/task/type/issue "
+    "time. TLC-simulated behaviours are executed by the real code on a virtual-time asyncio loop with a scripted fake client; every recorded run (also seeded random dyadic and millisecond ones) is "
+    "validated by TLC against TraceClientLoop.tla (L1 clauses on the record, L2 step conformance for tick-exact runs).",
+    "Bounds: <= 2 clients / parallel of <= 4 exhaustively, <= 3 iterations or <= 5 ticks, svc <= 2*interval+1, <= 1 error, weights {1,2}; wider by simulation/random. Trusted: vclock (time passes "
+    "only in asyncio.sleep and the scripted request), dyadic parameters for exact floats (else 1 ms rounding, tolerance 3 ms). The first request of a throttled task is scheduled at 0 (named in the model).",
+    "timed TLA+ spec + TLC exhaustive checking; spec-to-code replay of TLC behaviours on a virtual clock; TLC trace validation",
+    engine="tlc+vclock",
+    spec="ClientLoop",
+)
+check(
+    "C05",
+    "Same specification and legs as C04 (ClientLoop.tla); clauses: exact iteration count, warm-up flags by iteration or by decision instant (one straddling request free), no request decided "
+    "after warm-up period + time period, sample type / progress / scheduled time monotone, progress in [0,1] and exactly 1 at the end of iteration-based tasks, deterministic gap = weight*C/T, "
+    "first yield at ramp-up*i/total.",
+    "As C04, plus warm-up 0..2 x iterations 1..3, warm-up period 0..3(4) x time period 1..4 ticks, ramp-up for client 1 of 2 and clients 1 and 3 of 4.",
+    "timed TLA+ spec + TLC exhaustive checking; spec-to-code replay of TLC behaviours on a virtual clock; TLC trace validation",
+    engine="tlc+vclock",
+    spec="ClientLoop",
+)
+
 NOT_YET = "check under construction in this round (specification planned in DESIGN.md §4); not claimed yet"
 
 
